@@ -22,7 +22,17 @@
 #include <set>
 #include <mutex>
 
+#include <unifex/indexed_for.hpp>
+#include <iterator>
+#include <stdexcept>
+
 using namespace unifex;
+
+// indexed_for.hpp only forward-declares the policies it dispatches on (in the global namespace ::execution)
+namespace execution {
+class sequenced_policy {};
+class parallel_policy {};
+}  // namespace execution
 
 static std::string join(const std::vector<long>& v) {
   std::string s;
@@ -101,6 +111,40 @@ static std::string run_bulk_stack(long n, long k) {
   }));
   term = r ? "value" : "done";
   return term + " [" + join(idx) + "]";
+}
+
+// ---- indexed_for: func(idx, values...) for every idx of the range (forward iteration for seq, operator[] for par), then
+// the predecessor's values are passed on; a throwing func -> set_error, no further index
+struct ifor_iter {
+  using value_type = long; using reference = long; using difference_type = std::ptrdiff_t; using pointer = long*;
+  using iterator_category = std::random_access_iterator_tag;
+  long base_;
+  long operator[](std::size_t off) const { return base_ + (long)off; }
+  long operator*() const { return base_; }
+  ifor_iter& operator++() { ++base_; return *this; }
+  ifor_iter operator++(int) { auto c = *this; ++base_; return c; }
+  bool operator!=(const ifor_iter& o) const { return base_ != o.base_; }
+};
+struct ifor_range {
+  long n;
+  using iterator = ifor_iter;
+  ifor_iter begin() { return {0}; }
+  ifor_iter end() { return {n}; }
+  std::size_t size() const { return (std::size_t)n; }
+};
+template <typename Policy>
+static std::string run_ifor(long n, long throw_at) {
+  std::vector<long> idx; std::string term = "none"; long acc = -1;
+  try {
+    auto r = sync_wait(indexed_for(just(42L), Policy{}, ifor_range{n}, [&](long i, long& x) {
+      idx.push_back(i);
+      if (i == throw_at) throw std::runtime_error("f");
+      x += i;
+    }));
+    term = r ? "value" : "done";
+    if (r) acc = *r;
+  } catch (const std::runtime_error&) { term = "error"; }
+  return term + " [" + join(idx) + "] acc=" + std::to_string(acc);
 }
 
 // ---- execution policies: what bulk_schedule's receiver reports under a stack of bulk_transforms ----------
@@ -190,6 +234,9 @@ int main() {
       else if (pol == "par_unseq") std::cout << run_bulk<parallel_unsequenced_policy>(n, k) << "\n";
       else if (pol == "stack") std::cout << run_bulk_stack(n, k) << "\n";
       else std::cout << "ERR policy\n";
+    } else if (cmd == "indexed_for") {
+      long n, t = -1; std::string pol; is >> n >> pol >> t;
+      std::cout << (pol == "par" ? run_ifor<::execution::parallel_policy>(n, t) : run_ifor<::execution::sequenced_policy>(n, t)) << "\n";
     } else if (cmd == "policy") {
       std::string b; is >> b; std::vector<std::string> ps; std::string p; while (is >> p) ps.push_back(p);
       std::cout << policy_stack<3>(probe_source{}, b, ps, 0) << "\n";
